@@ -3,9 +3,12 @@ package props
 import (
 	"encoding/json"
 	"fmt"
+	"os"
+	"path/filepath"
 	"time"
 
 	"github.com/lidofinance/dc4bc/client/api/dto"
+	"github.com/lidofinance/dc4bc/client/modules/state"
 	"github.com/lidofinance/dc4bc/fsm/types/requests"
 	"github.com/lidofinance/dc4bc/storage"
 
@@ -343,6 +346,7 @@ func judgeReplays(c *Ctx, kind string, seed uint64, w *world.World, rounds []str
 			}
 		}
 	}
+	judgeResetOnLevelDB(c, kind, seed, w, rounds, log)
 	judgeFileBoard(c, kind, seed, w, rounds, log, r)
 	c.Sample(map[string]interface{}{"kind": kind, "log_len": len(log), "rounds": len(rounds), "nodes": len(w.Nodes)})
 }
@@ -420,5 +424,58 @@ func judgeFileBoard(c *Ctx, kind string, seed uint64, w *world.World, rounds []s
 				c.Violate("C08/file-board-replays-differ-by-poll-split", fmt.Sprintf("%s: one message per poll vs %s over the same board file (%d lines, %d of them repeated): %s", live.Name, sp, len(salted), dups, d), wit("file-board:"+sp))
 			}
 		}
+	}
+}
+
+// judgeResetOnLevelDB (b'): one replay per world on the real LevelDB store: consume half of the log,
+// reset the state through FSMService.ResetFSMState onto a new database directory (the real
+// LevelDBState.Reset / NewStateFromOld), consume the whole log again, compare with the live node.
+func judgeResetOnLevelDB(c *Ctx, kind string, seed uint64, w *world.World, rounds []string, log []storage.Message) {
+	live := w.Nodes[int(seed)%len(w.Nodes)]
+	dir, err := os.MkdirTemp(world.WorkRoot(), fmt.Sprintf("c08ldb%d-", os.Getpid()))
+	if err != nil {
+		c.Inconclusive("tmp: %v", err)
+		return
+	}
+	defer os.RemoveAll(dir)
+	ldb, err := state.NewLevelDBState(filepath.Join(dir, "first"), world.Topic)
+	if err != nil {
+		c.Inconclusive("leveldb: %v", err)
+		return
+	}
+	b := world.NewMemBoard()
+	for _, m := range log {
+		b.Inject(m)
+	}
+	rn := &world.Node{Idx: live.Idx, Name: live.Name, KeyPair: live.KeyPair, Keys: live.Keys, ResultCache: map[string][]byte{}, LDB: ldb}
+	defer rn.CloseHandles()
+	if err := rn.WireHot(ldb, b); err != nil {
+		c.Inconclusive("wire on leveldb: %v", err)
+		return
+	}
+	for int(rn.Offset()) < len(log)/2 {
+		if _, err := rn.PollStep(len(log) / 2); err != nil {
+			break
+		}
+	}
+	wit := map[string]interface{}{"kind": kind, "case_seed": seed, "log_len": len(log), "comparison": "reset on the real LevelDB store after half of the log"}
+	if _, err := rn.FSM.ResetFSMState(&dto.ResetStateDTO{NewStateDBDSN: filepath.Join(dir, "second")}); err != nil {
+		c.Violate("C08/state-reset-fails", err.Error(), wit)
+		return
+	}
+	if off := rn.Offset(); off != 0 {
+		c.Violate("C08/state-after-reset-and-replay-differs", fmt.Sprintf("offset after the reset is %d, not 0", off), wit)
+		return
+	}
+	for int(rn.Offset()) < len(log) {
+		if _, err := rn.PollStep(len(log)); err != nil {
+			break
+		}
+	}
+	c.Eval(1)
+	c.Add("resets_on_the_real_leveldb_store", 1)
+	c.Distinct(fmt.Sprintf("%s|reset-on-leveldb|%s", kind, live.Name))
+	if d := diffViews(viewOf(live, rounds, oracle.ProjOpts{}), viewOf(rn, rounds, oracle.ProjOpts{}), true); d != "" {
+		c.Violate("C08/state-after-reset-and-replay-differs", fmt.Sprintf("%s (LevelDB, reset after half of the log): %s", live.Name, d), wit)
 	}
 }
